@@ -51,6 +51,34 @@ theorem approvalScoreUpdate (e : Ballot × Nat) (P : Profile) (p : Pid) :
   · rw [if_neg h, if_neg h]
     simp
 
+/-- `approval_score` as a WHOLE (statement-level leaf `Gen.C06.approvalScoreFn`: `approval_score = 0`, the loop over the ballots, the
+    `return`): on the entries of a (multi)profile — does the ballot hold the project, the multiplicity of the ballot — it is the
+    model's approval score -/
+theorem approvalScoreFn (P : Profile) (p : Pid) :
+    ((Profile.approvalScore P p : Nat) : Rat) = Gen.C06.approvalScoreFn (P.map (fun e => (e.1.mem p, ((e.2 : Nat) : Rat)))) := by
+  unfold Gen.C06.approvalScoreFn
+  have key : ∀ (Q : Profile) (acc : Rat),
+      Gen.C06.approvalScoreFnLoop acc (Q.map (fun e => (e.1.mem p, ((e.2 : Nat) : Rat)))) = acc + ((Profile.approvalScore Q p : Nat) : Rat) := by
+    intro Q
+    induction Q with
+    | nil => intro acc; simp [Gen.C06.approvalScoreFnLoop, Profile.approvalScore, sumNat]
+    | cons e Q ih =>
+      intro acc
+      rw [List.map_cons, Gen.C06.approvalScoreFnLoop]
+      unfold Profile.approvalScore at ih ⊢
+      rw [sumNat]
+      by_cases h : e.1.mem p = true
+      · simp only [h, if_true]
+        rw [ih]
+        push_cast
+        ring
+      · simp only [h, if_false, Bool.false_eq_true]
+        rw [ih]
+        simp
+  have := key P 0
+  simp only [zero_add] at this
+  exact this.symm
+
 /-- `total_satisfaction`: `sum(sat.sat(projects) * self.multiplicity(sat) for sat in self)` -/
 theorem totalSatSummand (μ : Measure) (I : Inst) (P : Profile) (l : List Pid) :
     totalSatOf μ I P l =
